@@ -126,6 +126,16 @@ def run_check(ctx, args):
         proof_problems += [f"forbidden token: {h}" for h in hits]
 
     # 3. correspondence + oracle (doubles as the failing-input search)
+    cov = None
+    if os.environ.get("VERIF_COVERAGE"):
+        # development aid (tools/impl_coverage.py): which lines/branches of nutree/*.py does this check's
+        # correspondence run execute?  Never enabled by the registered commands.
+        import coverage as _coverage
+
+        cov = _coverage.Coverage(
+            data_file=os.path.join(os.environ["VERIF_COVERAGE"], f".coverage.{prop}"), branch=True,
+            include=[os.path.join(ctx.repo, "nutree", "*")], config_file=False)
+        cov.start()
     import_repo(ctx)
     mod = importlib.import_module(f"props.{prop.lower()}")
     if proof_problems:
@@ -156,6 +166,9 @@ def run_check(ctx, args):
             out.disagree(dict(kind="harness-exception"), f"the correspondence run aborted with {type(e).__name__}: {e}", traceback=tb[-3000:])
     finally:
         ctx.driver.close()
+        if cov is not None:
+            cov.stop()
+            cov.save()
 
     # 4. verdict
     known = core.load_known_findings()
